@@ -176,6 +176,10 @@ def evalCharconv (toks : List String) : Option (String × String × String) :=
   | ["fixbw", d, base, name] => do
     let d ← d.toNat?; let base ← base.toNat?; let v ← tcWideVal d name
     some (tcFixb (tcWideTy d "s") base v "fixbw/")
+  | ["oss", d, name] => do
+    -- operator<< of wide_integer<D, int> (the vendored multi-word inserter): the decimal numeral of the named value
+    let d ← d.toNat?; let v ← tcWideVal d name
+    some (tcEncChars (intText 10 v), "", "oss/wide")
   | ["cap", t] => do
     match ← parseTcTyK t with
     | .int T => some (toString (intCapacity T), "", "cap/int")
@@ -223,6 +227,7 @@ def checkC13 (toks : List String) (res : String) : Option Verdict := do
   | ["capwb", d, sg, base] =>
     let d ← d.toNat?; let base ← base.toNat?
     some { model := m, spec := some ((res.toNat?.getD 0) ≥ tcLongest (tcWideTy d sg) base), branch := br }
+  | ["oss", _, _] => some { model := m, spec := some (res == m), cls := cls, branch := br }
   | ["fixb", _, _, _] => some { model := m, spec := some (tcFixbGood res), cls := cls, branch := br }
   | ["fixbw", _, _, _] => some { model := m, spec := some (tcFixbGood res), cls := cls, branch := br }
   | ["fix", _, _] =>
